@@ -60,30 +60,19 @@ def _sim_cases(draw, tier):
 
 def _sim_check(case):
     from ._sim_common import summarize
-    from ..oracles import Analysis
+    from ..oracles import Analysis, check_round_follows
     # an exception escaping the matching round surfaces here as PamsCrash and is attributed through its innermost pams frame
     # (pams/market.py is C03's anchor)
     res = run_case(case, {"exec_state": True})
     A = Analysis(case, res)
     sim = A.sim
     halt_rule = any(isinstance(v, dict) and v.get("class") == "TradingHaltRule" and v.get("enabled", True) for v in case["config"].values())
-    rounds = checks = 0
-    for s in A.steps:
-        cs = A.sess_cfg[s["session"].session_id]
-        pend = None
-        for i, k, kw in s["items"]:
-            if kw.get("executable") is not None and pend is not None:
-                mi, what = pend
-                # without a halt rule the session flag alone decides whether a round follows the acceptance
-                if cs["withOrderExecution"] and not halt_rule and kw["executable"][mi]:
-                    raise Violation("C03.clears_every_executable_pair", f"step {s['t']}: after the round that followed the accepted {what} on market {mi} "
-                                                                        f"the book is still executable at the next observation point ({k})")
-                checks += 1
-                pend = None
-            if k == "log.write" and isinstance(kw["log"], (OrderLog, CancelLog)):
-                pend = (sim.markets.index(sim.id2market[kw["log"].market_id]), type(kw["log"]).__name__)
-            if k == "log.write" and isinstance(kw["log"], ExecutionLog):
-                rounds += 1
+    # (with a halt rule around, "a round follows" is judged only where no halt intervened: see oracles.check_round_follows)
+    try:
+        checks = check_round_follows(A, "C03")
+    except Violation as v:
+        raise Violation("C03.clears_every_executable_pair", v.message)
+    rounds = sum(1 for k, kw in A.items if k == "log.write" and isinstance(kw["log"], ExecutionLog))
     nt = rounds >= 2
     classes = [case.get("family", "?")] + (["fills"] if rounds else []) + (["halt_rule"] if halt_rule else [])
     return CaseInfo(nontrivial=nt, classes=classes, steps=A.total_steps, sample={"case": summarize(case), "fills": rounds, "checks": checks})
